@@ -66,7 +66,13 @@ class C02(SCheck):
             ops.append(gen.f_op("dst/keep", 33, pat=9))
             ops.append(gen.d_op("dst/keepdir"))
             ops.append(gen.l_op("dst/keeplink", "keep"))
-        use_T = nsrc == 1 and r.random() < 0.2 and ((kinds[0] == "d" and dstate != "file") or (kinds[0] == "f" and dstate in ("absent", "file")))
+            if kinds[0] == "d" and r.random() < 0.3:
+                # an earlier copy left a *file* where the source now has an (empty) directory, or the reverse
+                ops.append(gen.d_op(srcs[0] + "/wasfile"))
+                ops.append(gen.d_op("dst/" + srcs[0]))
+                ops.append(gen.f_op("dst/" + srcs[0] + "/wasfile", 12, pat=4))
+        # -T onto an existing directory with a non-directory source must not succeed by mapping to dest/<name>: kept at a low rate
+        use_T = nsrc == 1 and r.random() < 0.25 and ((kinds[0] == "d" and dstate != "file") or (kinds[0] == "f" and (dstate in ("absent", "file") or r.random() < 0.4)))
         use_td = (not use_T) and dstate in ("empty", "populated") and r.random() < 0.2
         use_glob = (not use_td) and r.random() < 0.15
         if use_T:
@@ -89,6 +95,11 @@ class C02(SCheck):
                 for s, k in zip(srcs, kinds):
                     if k == "d":
                         edits.append(gen.f_op("%s/new%d" % (s, j), r.randrange(0, fcap), pat=r.randrange(1, 1 << 30)))
+                        if r.random() < 0.3:
+                            # a file of the previous copy becomes an empty directory in the source
+                            edits.append({"op": "rm", "p": "%s/new%d" % (s, j - 1)} if j > 0 else gen.d_op("%s/kd%d" % (s, j)))
+                            if j > 0:
+                                edits.append(gen.d_op("%s/new%d" % (s, j - 1)))
                         if r.random() < 0.5:
                             edits.append(gen.d_op("%s/newdir%d" % (s, j)))
                             edits.append(gen.f_op("%s/newdir%d/x" % (s, j), 10, pat=3))
